@@ -70,6 +70,9 @@ def run(ck: Check):
         ck.case(case, nontrivial=len(arch) >= 2 or pads, kind=kind)
         net = compiled.build(model, W)
         text = net.get_c_code()
+        if net.get_c_code() != text:
+            ck.disagree("generating the C code twice from one CompiledLogicNet gives two different programs", case,
+                        signature={"what": "regenerate", "kind": kind})
         try:
             p = cparse.parse_unit(text, W)
         except cparse.ParseError as e:
